@@ -28,7 +28,7 @@ THOROUGH_ROUNDS = 3
 COMBOS = (
     [("am", e, {}) for e in ("tsp", "cvrp", "cvrptw", "sdvrp", "svrp", "op", "pctsp", "spctsp", "pdp", "mtsp", "mtvrp", "mdcpdp", "smtwtp")]
     + [("am_instnorm", "tsp", {}), ("am_layernorm", "cvrp", {}), ("am_layernorm", "tsp", {}), ("am_instnorm", "cvrp", {}), ("am_moe", "cvrp", {}), ("am_moe", "mtvrp", {}), ("ham", "pdp", {}), ("symnco", "tsp", {}), ("symnco", "cvrp", {}),
-       ("matnet", "atsp", {}), ("polynet", "tsp", {}), ("polynet", "cvrp", {}), ("nar", "tsp", {}), ("nar", "cvrp", {}), ("nar", "op", {}),
+       ("matnet", "atsp", {}), ("polynet", "tsp", {}), ("polynet", "cvrp", {}), ("nar", "tsp", {}), ("nar", "cvrp", {}), ("nar", "op", {}), ("am_simple_sdpa", "cvrp", {}), ("am_simple_sdpa", "tsp", {}), ("am_simple_sdpa", "pctsp", {}),
        ("l2d", "fjsp", dict(jobs=3, mas=2, min_ops=1, max_ops=3, mask_no_ops=True)), ("l2d", "jssp", dict(jobs=3, mas=3, one2one=True, mask_no_ops=True)),
        ("am", "dpp", dict(size=5, kmin=3, kmax=10, decaps=6)), ("am", "mdpp", dict(size=10, kmin=1, kmax=10, decaps=20, reward_type="minmax"))]
 )
